@@ -313,47 +313,116 @@ def breakpoints(sa, extra=()):
 
 # ------------------------------------------------------------------ schedules
 
-def enum_schedules(counts, max_pre, cap, rnd):
-    """All segment lists with at most max_pre pre-emptions (a switch away from an unfinished thread)
-    for threads with `counts` steps when run alone; beyond `cap`, every schedule with fewer
-    pre-emptions plus a seeded sample.  -> (list of segment lists, exhaustive?)"""
-    nt = len(counts)
-    out = []
+ENUM_LIMIT = 150000     # schedules enumerated before falling back to direct sampling (bounds time and memory)
 
-    def rec(segs, done, pre, last):
-        # continue: pick the next thread to run
+
+def _gen_schedules(counts, max_pre):
+    """generator of (pre-emptions, segment list) for all schedules with at most max_pre pre-emptions"""
+    nt = len(counts)
+    segs = []
+
+    def rec(done, pre, last):
         unfinished = [t for t in range(nt) if done[t] < counts[t]]
         if not unfinished:
-            out.append((pre, list(segs)))
+            yield pre, list(segs)
             return
         for t in unfinished:
             if t == last:
                 continue
             remaining = counts[t] - done[t]
-            # run t to completion (no pre-emption)
-            segs.append((t, None))
+            segs.append((t, None))          # run t to completion (no pre-emption)
             d2 = list(done)
             d2[t] = counts[t]
-            rec(segs, d2, pre, t)
+            yield from rec(d2, pre, t)
             segs.pop()
             if pre < max_pre and len(unfinished) > 1:
                 for kk in range(1, remaining):
                     segs.append((t, kk))
                     d2 = list(done)
                     d2[t] += kk
-                    rec(segs, d2, pre + 1, t)
+                    yield from rec(d2, pre + 1, t)
                     segs.pop()
 
-    rec([], [0] * nt, 0, None)
-    if len(out) <= cap:
-        return [s for _, s in out], True
-    low = [s for p, s in out if p < max_pre]
-    high = [s for p, s in out if p >= max_pre]
-    if len(low) > cap:
-        rnd.shuffle(low)
-        return low[:cap], False
+    yield from rec([0] * nt, 0, None)
+
+
+def _random_schedule(counts, max_pre, rnd):
+    """one schedule with at most max_pre pre-emptions, built directly"""
+    nt = len(counts)
+    done = [0] * nt
+    segs, pre, last = [], 0, None
+    target = rnd.randint(1, max_pre) if max_pre else 0
+    while True:
+        unfinished = [t for t in range(nt) if done[t] < counts[t] and t != last]
+        if not unfinished:
+            if all(done[t] >= counts[t] for t in range(nt)):
+                return segs
+            unfinished = [last]
+        t = rnd.choice(unfinished)
+        remaining = counts[t] - done[t]
+        others = any(done[u] < counts[u] for u in range(nt) if u != t)
+        if pre < target and remaining > 1 and others:
+            kk = rnd.randrange(1, remaining)
+            segs.append((t, kk))
+            done[t] += kk
+            pre += 1
+        else:
+            segs.append((t, None))
+            done[t] = counts[t]
+        last = t
+
+
+def enum_schedules(counts, max_pre, cap, rnd):
+    """All segment lists with at most max_pre pre-emptions (a switch away from an unfinished thread)
+    for threads with `counts` steps when run alone; beyond `cap`, every schedule with fewer
+    pre-emptions plus a seeded sample.  The enumeration is lazy (reservoir sampling, nothing but the kept
+    schedules in memory) and stops after ENUM_LIMIT schedules, the rest of the sample then being built directly.
+    -> (list of segment lists, exhaustive?)"""
+    low, high, n_low, n_high, n = [], [], 0, 0, 0
+    truncated = False
+    for pre, segs in _gen_schedules(counts, max_pre):
+        n += 1
+        if n > ENUM_LIMIT:
+            truncated = True
+            break
+        if pre < max_pre:
+            n_low += 1
+            if len(low) <= cap:             # complete while it fits, a uniform reservoir afterwards
+                low.append(segs)
+            else:
+                j = rnd.randrange(n_low)
+                if j <= cap:
+                    low[j] = segs
+        else:
+            n_high += 1
+            if len(high) < cap:
+                high.append(segs)
+            else:
+                j = rnd.randrange(n_high)
+                if j < cap:
+                    high[j] = segs
+    if not truncated and n <= cap:
+        return low + high, True
     rnd.shuffle(high)
-    return low + high[: cap - len(low)], False
+    if n_low > cap:
+        # more schedules with fewer pre-emptions than the cap: two thirds of them, one third with max_pre pre-emptions
+        rnd.shuffle(low)
+        out = low[: cap - min(len(high), cap // 3)] + high[: cap // 3]
+    else:
+        out = low + high[: cap - len(low)]
+    if truncated:
+        # replace half of the sample by schedules drawn over the WHOLE space (the lazy enumeration only saw a prefix of it)
+        keep = out[: max(len(low) if n_low <= cap else 0, cap // 2)][:cap]
+        seen = {repr(x) for x in keep}
+        tries = 0
+        while len(keep) < cap and tries < 20 * cap:
+            tries += 1
+            sg = _random_schedule(counts, max_pre, rnd)
+            if repr(sg) not in seen:
+                seen.add(repr(sg))
+                keep.append(sg)
+        out = keep
+    return out, False
 
 
 # ------------------------------------------------------------------ the schedule stream (one task per kind x op tuple)
